@@ -109,7 +109,7 @@ def run(chk, tier):
     n1, ns = (400, 400) if thorough else (35, 35)
     progs = sorted(p1[:n1] + psim[:ns], key=lambda p: json.dumps(p["prog"], sort_keys=True))
     cfgs, classes = c01.configs(chk)
-    strong = [c for c in cfgs if c["q"] * c["rate"] + c["pow"] >= 50 and not c["zk"]]
+    strong = [c for c in cfgs + c01.EXTRA_CFGS if c["q"] * c["rate"] + c["pow"] >= 50 and not c["zk"]]
     strong_zk = [c for c in cfgs if c["q"] * c["rate"] + c["pow"] >= 50 and c["zk"] and c["q"] <= 14]
     std = {"zk": False, "strat": "const", "arities": [4, 5], "rate": 3, "cap": 4, "nch": 2, "width": "std", "q": 28, "pow": 16,
            "keccak": False}
